@@ -79,7 +79,14 @@ impl Arena {
             );
             let data = base.add(PAGE);
             std::ptr::write_bytes(data, 0xA5, data_len);
-            Arena { base, map_len, data, data_len, poison: 0xA5, cur: (0, 0) }
+            Arena {
+                base,
+                map_len,
+                data,
+                data_len,
+                poison: 0xA5,
+                cur: (0, 0),
+            }
         }
     }
 
@@ -98,7 +105,12 @@ impl Arena {
     /// Reserves `bytes` bytes at the given placement and returns the start pointer.  The
     /// previously placed slice is re-poisoned first.  `align` is the element alignment.
     pub fn place(&mut self, bytes: usize, align: usize, place: Place) -> *mut u8 {
-        assert!(bytes + 128 <= self.data_len, "arena too small: {} > {}", bytes, self.data_len);
+        assert!(
+            bytes + 128 <= self.data_len,
+            "arena too small: {} > {}",
+            bytes,
+            self.data_len
+        );
         unsafe {
             let (s, e) = self.cur;
             if e > s {
@@ -112,7 +124,7 @@ impl Arena {
                 let k = k as usize % 64;
                 let pad = (self.data_len - bytes + 64 - k) % 64; // data_len ≡ 0 (mod 64)
                 self.data_len - bytes - pad
-            },
+            }
             Place::AlignLo(k) => k as usize % 64,
         };
         assert_eq!(start % align, 0, "placement violates element alignment");
@@ -223,7 +235,10 @@ impl Slot {
                 0,
             );
             assert!(mem != libc::MAP_FAILED, "mmap shared failed");
-            Slot { mem: mem as *mut u8, len }
+            Slot {
+                mem: mem as *mut u8,
+                len,
+            }
         }
     }
     fn hdr(&self) -> *mut SlotHeader {
@@ -450,7 +465,11 @@ impl Ctx {
     fn note_inflight<C: Case>(&mut self, case: &C) {
         unsafe {
             let h = self.slot_hdr;
-            let mut w = FixedWriter { buf: (*h).text.as_mut_ptr(), cap: INFLIGHT_TEXT, len: 0 };
+            let mut w = FixedWriter {
+                buf: (*h).text.as_mut_ptr(),
+                cap: INFLIGHT_TEXT,
+                len: 0,
+            };
             case.inflight(&mut w);
             std::ptr::write_volatile(&mut (*h).text_len, w.len as u64);
             std::ptr::write_volatile(&mut (*h).seq, self.seq);
@@ -497,12 +516,7 @@ impl Ctx {
     ///
     /// `nontrivial` says whether the case counts towards `distinct_nontrivial` (by the rule
     /// the property states); `check` must be a pure function of the case.
-    pub fn run_case<C: Case>(
-        &mut self,
-        case: &C,
-        nontrivial: bool,
-        check: &mut dyn FnMut(&C) -> Verdict,
-    ) {
+    pub fn run_case<C: Case>(&mut self, case: &C, nontrivial: bool, check: &mut dyn FnMut(&C) -> Verdict) {
         self.seq += 1;
         let seq = self.seq;
         if let Some((fseq, sig)) = self.replay.fault {
@@ -524,7 +538,8 @@ impl Ctx {
         if let Some(fail) = v {
             self.p.bump("violations_found", 1);
             let r = case.routine();
-            self.p.bump(&format!("violating:{}", r.split("::").next().unwrap_or(&r)), 1);
+            self.p
+                .bump(&format!("violating:{}", r.split("::").next().unwrap_or(&r)), 1);
             if self.p.violations.len() < MAX_PER_JOB {
                 let hdr = self.slot_hdr;
                 let (min, fail, steps) = shrink_case(case, fail, 3000, &mut |c| {
@@ -558,12 +573,7 @@ impl Ctx {
         self.seq
     }
 
-    fn minimise_fault<C: Case>(
-        &mut self,
-        case: &C,
-        sig: i32,
-        check: &mut dyn FnMut(&C) -> Verdict,
-    ) {
+    fn minimise_fault<C: Case>(&mut self, case: &C, sig: i32, check: &mut dyn FnMut(&C) -> Verdict) {
         self.p.evaluations += case.calls();
         self.p.bump_cases();
         self.p.bump("violations_found", 1);
@@ -580,7 +590,7 @@ impl Ctx {
             Probe::Died(s) => {
                 last_sig = s;
                 true
-            },
+            }
             _ => false,
         };
         if reproduced {
@@ -664,7 +674,11 @@ pub struct Job {
 
 impl Job {
     pub fn new(name: String, rng: &mut Rng, run: impl Fn(&mut Ctx) + 'static) -> Job {
-        Job { name, seed: rng.next_u64(), run: Box::new(run) }
+        Job {
+            name,
+            seed: rng.next_u64(),
+            run: Box::new(run),
+        }
     }
 }
 
@@ -677,12 +691,19 @@ pub struct RunCfg {
 
 impl RunCfg {
     pub fn for_tier(tier: Tier) -> RunCfg {
-        let workers = std::thread::available_parallelism().map(|n| n.get()).unwrap_or(4).min(32);
+        let workers = std::thread::available_parallelism()
+            .map(|n| n.get())
+            .unwrap_or(4)
+            .min(32);
         let budget = match tier {
             Tier::Quick => Duration::from_secs(18),
             Tier::Thorough => Duration::from_secs(300),
         };
-        RunCfg { tier, workers, budget }
+        RunCfg {
+            tier,
+            workers,
+            budget,
+        }
     }
 }
 
@@ -733,7 +754,9 @@ unsafe fn child_main(job: &Job, slot: &Slot, replay: Replay, cfg: &RunCfg, deadl
         } else {
             "unknown panic".into()
         };
-        ctx.p.internal_errors.push(format!("job {} panicked in harness code: {}", job.name, msg));
+        ctx.p
+            .internal_errors
+            .push(format!("job {} panicked in harness code: {}", job.name, msg));
     }
     ctx.flush_interim();
     let h = slot.hdr();
@@ -789,7 +812,10 @@ pub fn run_jobs(jobs: Vec<Job>, cfg: &RunCfg) -> Partial {
                 return None;
             }
             let n = std::ptr::read_volatile(&(*slot.hdr()).result_len) as usize;
-            Partial::deserialize(std::slice::from_raw_parts(slot.result_area(), n.min(RESULT_BYTES)))
+            Partial::deserialize(std::slice::from_raw_parts(
+                slot.result_area(),
+                n.min(RESULT_BYTES),
+            ))
         }
     };
     let push_fault = |total: &mut Partial, v: Violation| {
@@ -802,7 +828,16 @@ pub fn run_jobs(jobs: Vec<Job>, cfg: &RunCfg) -> Partial {
     loop {
         while next < jobs.len() && !free.is_empty() {
             let slot = free.pop().unwrap();
-            running.push(spawn(next, slot, 0, Replay { skip_upto: 0, fault: None }, None));
+            running.push(spawn(
+                next,
+                slot,
+                0,
+                Replay {
+                    skip_upto: 0,
+                    fault: None,
+                },
+                None,
+            ));
             next += 1;
         }
         if running.is_empty() {
@@ -835,13 +870,17 @@ pub fn run_jobs(jobs: Vec<Job>, cfg: &RunCfg) -> Partial {
             std::thread::sleep(Duration::from_micros(500));
             continue;
         }
-        let Some(idx) = running.iter().position(|r| r.pid == pid) else { continue };
+        let Some(idx) = running.iter().position(|r| r.pid == pid) else {
+            continue;
+        };
         let r = running.swap_remove(idx);
         let slot = &slots[r.slot];
         let job_name = &jobs[r.job].name;
         let part = published(slot);
-        let reported_fault =
-            part.as_ref().map(|p| p.violations.iter().any(|v| v.kind == "fault")).unwrap_or(false);
+        let reported_fault = part
+            .as_ref()
+            .map(|p| p.violations.iter().any(|v| v.kind == "fault"))
+            .unwrap_or(false);
         if libc::WIFEXITED(status) && libc::WEXITSTATUS(status) == 0 {
             match part {
                 Some(p) => {
@@ -852,14 +891,18 @@ pub fn run_jobs(jobs: Vec<Job>, cfg: &RunCfg) -> Partial {
                         }
                     }
                     total.merge(p);
-                },
+                }
                 None => total
                     .internal_errors
                     .push(format!("job {job_name}: child exited without a readable result")),
             }
             free.push(r.slot);
         } else if libc::WIFSIGNALED(status) {
-            let sig = if r.stalled { libc::SIGALRM } else { libc::WTERMSIG(status) };
+            let sig = if r.stalled {
+                libc::SIGALRM
+            } else {
+                libc::WTERMSIG(status)
+            };
             let (seq, desc) = slot.inflight();
             total.bump("child_faults", 1);
             if let Some((pseq, psig, pdesc)) = &r.pending {
@@ -888,15 +931,29 @@ pub fn run_jobs(jobs: Vec<Job>, cfg: &RunCfg) -> Partial {
                 let same_as_pending = r.pending.as_ref().map(|p| p.0 == seq).unwrap_or(false);
                 let replay = if same_as_pending {
                     // the minimiser itself crashed the child: just skip that case
-                    Replay { skip_upto: seq, fault: None }
+                    Replay {
+                        skip_upto: seq,
+                        fault: None,
+                    }
                 } else {
-                    Replay { skip_upto: seq, fault: Some((seq, sig)) }
+                    Replay {
+                        skip_upto: seq,
+                        fault: Some((seq, sig)),
+                    }
                 };
-                let pending = if same_as_pending { None } else { Some((seq, sig, desc)) };
+                let pending = if same_as_pending {
+                    None
+                } else {
+                    Some((seq, sig, desc))
+                };
                 running.push(spawn(r.job, r.slot, r.attempts + 1, replay, pending));
             }
         } else {
-            let code = if libc::WIFEXITED(status) { libc::WEXITSTATUS(status) } else { -1 };
+            let code = if libc::WIFEXITED(status) {
+                libc::WEXITSTATUS(status)
+            } else {
+                -1
+            };
             total
                 .internal_errors
                 .push(format!("job {job_name}: child exited with status {code}"));
@@ -912,10 +969,17 @@ fn raw_fault(job: &str, seq: u64, sig: i32, desc: &str) -> Violation {
         kind: "fault".into(),
         routine: desc.split_whitespace().next().unwrap_or("?").to_string(),
         call: desc.to_string(),
-        input: format!("{{\"job\":{},\"case_seq\":{}}}", crate::report::json_str(job), seq),
+        input: format!(
+            "{{\"job\":{},\"case_seq\":{}}}",
+            crate::report::json_str(job),
+            seq
+        ),
         expected: "returns (or panics) without a memory fault / within the watchdog".into(),
         actual: format!("child process killed: {}", signal_name(sig)),
-        note: format!("{} (unminimised: in-flight record of the child)", signal_name(sig)),
+        note: format!(
+            "{} (unminimised: in-flight record of the child)",
+            signal_name(sig)
+        ),
     }
 }
 
